@@ -694,7 +694,7 @@ def tensor_cases(draw, profile=None, jit=False):
     else:
         shape = [draw(st.sampled_from([2, 1])), draw(st.sampled_from([2, 3, 1]))]
     n = int(np.prod(shape))
-    routes = ["array_separate", "array_single", "get_function"] if jit else ["call", "getitem", "get_function"]
+    routes = ["array_separate", "array_single", "get_function"] if jit else ["call", "getitem", "get_function", "copy"]
     route = draw(st.sampled_from(routes))
     prof = G.PROFILE_ARRAY if route.startswith("array") else (profile or G.PROFILE_FULL)
     asts = [draw(G.asts(vs, cs, profile=prof, max_depth=3, budget=10)) for _ in range(n)]
@@ -779,6 +779,14 @@ def check_tensor(case, backend="numpy", tolk=TOLK):
     else:
         if route == "call":
             got = run_generated(lambda: expr(*args), text, f"{backend}/{route}")
+        elif route == "copy":
+            # copy constructor (reported by a seeding agent: the copy of a tensor expression fell back to
+            # alphabetical argument order)
+            cp = TensorExpression(expr)
+            if list(cp.vars) != list(expr.vars):
+                raise Violation(f"TensorExpression(expr).vars = {list(cp.vars)!r}, the source has {list(expr.vars)!r} "
+                                f"(signature {case['sig']['sig']!r})", key=key + ":vars")
+            got = run_generated(lambda: cp(*args), text, f"{backend}/{route}")
         elif route == "get_function":
             if backend == "numba" and full != () and len({bool(expr[i if len(i) > 1 else i[0]].constant)
                                                            for i in np.ndindex(*shape)}) > 1:
